@@ -407,16 +407,16 @@ def part_a(ctx, only=None):
 # ----------------------------------------------------------------------------- (a-wide)
 
 def part_a_wide(ctx, only=None):
-    """the lowered arithmetic at operand widths beyond the exhaustive tables (5..15 quick, 5..24 thorough, equal and
+    """the lowered arithmetic at operand widths beyond the exhaustive tables (5..15 quick, 5..20 thorough, equal and
     mixed): the column heights of the Wallace tree in _basic_mult, the carry chain of _basic_add/_basic_sub and the
     MSB-peeling comparators depend on the width, so a flaw can exist at a few widths only.  Directed values: every pair
     of single bits (each partial product alone), all-ones, alternating patterns, one below/above a power of two, and
     random values; oracle: Python integers."""
     quick = ctx.tier == 'quick'
-    top = 15 if quick else 24
+    top = 15 if quick else 20
     pairs = [(w, w) for w in range(5, top + 1)]
     rng0 = ctx.sub_rng('a-wide', 'pairs')
-    pairs += [(rng0.randint(5, top), rng0.randint(1, top)) for _ in range(4 if quick else 20)]
+    pairs += [(rng0.randint(5, top), rng0.randint(1, top)) for _ in range(4 if quick else 10)]
     pairs += [(b, a) for a, b in pairs[-2:]]
     if only:
         pairs = [tuple(only)]
@@ -452,7 +452,7 @@ def part_a_wide(ctx, only=None):
         specials_b = sorted({y & mb for y in specials_b})
         vals += [(x, y) for x in specials_a for y in specials_b]
         vals += [(x, x & mb) for x in specials_a] + [(y & ma, y) for y in specials_b]
-        vals += [(rng.getrandbits(wa), rng.getrandbits(wb)) for _ in range(40 if quick else 200)]
+        vals += [(rng.getrandbits(wa), rng.getrandbits(wb)) for _ in range(40 if quick else 100)]
         if only:
             vals = vals + [(x, y) for x in range(min(1 << wa, 64)) for y in range(min(1 << wb, 64))]
         ctx.count('wide_width_pairs', '%dx%d' % (wa, wb))
